@@ -181,6 +181,19 @@ def runWith [Inhabited σ] (m : Machine σ) (s0 : σ) (scfg : WinSpec.Cfg) (c : 
         idleTicked := true
         idleTicks := idleTicks + 1
       obs := obs ++ [[]]
+    | ["sleep"] => obs := obs ++ [[]]
+    | ["ntick"] =>
+      -- natural ticker update: the harness measured whether IDLETIMEOUT had elapsed since the last Add (`i` / `b`);
+      -- `ai` / `ab`: the measurement straddled the threshold and the implementation's own decision is followed
+      let flag := match implObs with | ["tickflag", f] :: _ => f | _ => "b"
+      if flag == "i" || flag == "ai" then
+        s := m.tickIdle s (now + Int.ofNat idleTicks)
+        evs := evs ++ [WinSpec.Ev.idle (now + Int.ofNat idleTicks)]
+        idleTicked := true
+        idleTicks := idleTicks + 1
+      else
+        s := m.tick s now
+      obs := obs ++ [[["tickflag", flag]]]
     | ["itick"] =>
       s := m.tickIdle s (now + Int.ofNat idleTicks)
       evs := evs ++ [WinSpec.Ev.idle (now + Int.ofNat idleTicks)]
